@@ -567,48 +567,48 @@ SPECS = {
                             'complex arithmetic: magnitudes for pivoting are CABS1 as in the library; multiplier bound sqrt(2)/u in modulus',
                             'Engine Q runs the workers inline (schedule "worker 0 first"); other schedules are explored by Engine S jobs of this check',
                             'structurally singular inputs are outside the hypothesis info=0 and are skipped (counted as matrices_outside_hypothesis)'],
-            'deadline': {'quick': 600, 'thorough': 3 * 3600}},
+            'deadline': {'quick': 600, 'thorough': 3600}},
     'C01': {'jobs': jobs_C01, 'level': 'exploration', 'rule': RULE_SEQ,
             'assumptions': ['hypothesis "nonsingular": structurally nonsingular and cond_1(A) < 1e6 in the long-double reference; other inputs are skipped and counted',
                             'nprocs in {1,2,3,5} incl. nprocs > n; Engine Q schedules: inline (worker 0 first) and one free-running pthread run (variant qt); all other schedules: Engine S jobs',
                             'OpenMP build not explored (libgomp is outside the scheduler); 64-bit index build (ql) in the thorough tier'],
-            'deadline': {'quick': 600, 'thorough': 3 * 3600}},
+            'deadline': {'quick': 600, 'thorough': 3600}},
     'C05': {'jobs': jobs_C05, 'level': 'exploration', 'rule': RULE_SEQ + '; oracles: ASan/UBSan on every access, slot monitor on every L-value allocation (hooks), stored values vs reserved block',
             'assumptions': ['an overrun from one sub-array of the per-thread integer work array into the next is not directly observable (only through its consequences)',
                             'structurally singular inputs only at n <= 3 (they all hit the known defect of C06)'],
-            'deadline': {'quick': 600, 'thorough': 3 * 3600}},
+            'deadline': {'quick': 600, 'thorough': 3600}},
     'C06': {'jobs': jobs_C06, 'level': 'exploration', 'rule': RULE_SEQ + '; singular inputs only: structurally singular patterns, explicit zero column/row inside an otherwise generic matrix, all-ones values (exact cancellation)',
             'assumptions': ['the reported position is judged against symbolic elimination with the library\'s own pivots: info must lie between the first structurally rank-deficient column prefix and the first column that has no candidate row at all; deficiency that appears only through floating-point cancellation is not required to be detected',
                             'after a crash the sweep resumes behind the configuration that died, at most twice per matrix'],
-            'deadline': {'quick': 1500, 'thorough': 3 * 3600}},
+            'deadline': {'quick': 1500, 'thorough': 3600}},
     'C16': {'jobs': jobs_C16, 'level': 'exploration', 'rule': RULE_SEQ + '; only patterns with a full diagonal, values row- and column-diagonally dominant, SymmetricMode=YES, ordering MMD(A^T+A), u=0',
             'assumptions': ['fill bound = values actually stored per block of the Cholesky prediction (relax=1) and the slot monitor on every allocation (all relax)'],
-            'deadline': {'quick': 600, 'thorough': 3 * 3600}},
+            'deadline': {'quick': 600, 'thorough': 3600}},
     'C03': {'jobs': jobs_C03, 'level': 'model_checking',
             'rule': 'stateless preemption-bounded DFS (CHESS style) over ALL interleavings of the hooked synchronisation/protocol points of the real factorization, per catalogue job (shape x threads x bound x options); states = distinct global event sequences, transitions = scheduler steps; in every execution: event monitors (consume-before-release/pivot, update twice, write-while-read, I1/I2/I2b on the real scheduler structures), ASan, and the C02 residual of the returned factors',
             'assumptions': ['sequential consistency; neither store buffering nor compiler reordering around the volatile flag store is modelled',
                             'n <= 8 harnesses, preemption bound as stated per job (bound completed is reported per job)',
                             'waiting is modelled as blocking at the flag test; fruitless polls of the task queue park the poller until the queue changes'],
-            'deadline': {'quick': 900, 'thorough': 4 * 3600}},
+            'deadline': {'quick': 900, 'thorough': 5400}},
     'C04': {'jobs': jobs_C04, 'level': 'model_checking',
             'rule': 'same exploration as C03; in every execution: deadlock (no enabled thread) / runaway detection by the scheduler, exactly-once accounting of panels, columns, pivots and releases, tasks_remain == untaken panels at every scheduler return, queue bounds, every created thread joined',
             'assumptions': ['sequential consistency', 'CPU oversubscription / injected delays of the property text are replaced by exhaustive bounded schedules'],
-            'deadline': {'quick': 900, 'thorough': 4 * 3600}},
+            'deadline': {'quick': 900, 'thorough': 5400}},
     'C07': {'jobs': lambda t: jobs_expert('C07', t), 'level': 'exploration', 'rule': RULE_X,
             'assumptions': ['hypothesis cond*growth*n*eps <= 1e-3 decides between the refined bound 8(n+1)eps on the componentwise backward error of X for the ORIGINAL system and the unrefined C01-style bound',
                             'signatures carry the precision class (real/complex): the s/d and c/z code paths differ'],
-            'deadline': {'quick': 600, 'thorough': 3 * 3600}},
+            'deadline': {'quick': 600, 'thorough': 3600}},
     'C11': {'jobs': lambda t: jobs_expert('C11', t), 'level': 'exploration', 'rule': RULE_X + '; family equ: direct ?gsequ/?laqgs calls on ALL 1x1, 1x2, 2x1, 2x2, 2x3, 3x2 matrices over a 10-letter exponent alphabet {0, 2^-1000, 2^-500, 1, 3, 2^500, 2^1000, near overflow, denormal, -2.5} (precision-scaled) and all 45 (rowcnd, colcnd, amax) threshold classes of ?laqgs',
             'assumptions': ['scale factors compared within 2-8 ulp of the long-double reference; entries whose combined factor R_i*C_j over/underflows in working precision are not judged (same in LAPACK ?laqge)'],
-            'deadline': {'quick': 600, 'thorough': 3 * 3600}},
+            'deadline': {'quick': 600, 'thorough': 3600}},
     'C12': {'jobs': lambda t: jobs_expert('C12', t), 'level': 'exploration', 'rule': RULE_X,
             'assumptions': ['hypothesis: cond <= 1e-3/eps, u >= 0.1; references from a long-double inverse; tolerance 64 n eps cond + 1e-3 on the two rcond bounds',
                             'complex magnitudes for pivot growth are CABS1 as in the library'],
-            'deadline': {'quick': 600, 'thorough': 3 * 3600}},
+            'deadline': {'quick': 600, 'thorough': 3600}},
     'C13': {'jobs': lambda t: jobs_expert('C13', t), 'level': 'exploration', 'rule': RULE_X,
             'assumptions': ['berr compared with the componentwise backward error of the returned X on the equilibrated system (abs. slack 4(n+2)eps + 2%)',
                             'exact solution = quad-precision (113 bit) solve of the caller\'s original system; ferr claim only for cond < 0.1/eps (original and equilibrated), slack 40 as in TESTING/p?drive.c'],
-            'deadline': {'quick': 600, 'thorough': 3 * 3600}},
+            'deadline': {'quick': 600, 'thorough': 3600}},
     'C15': {'jobs': jobs_C15, 'level': 'exploration',
             'rule': 'exhaustive enumeration: 8 routines x 20 legal baselines (4x4 matrix, real factors) x every single documented-precondition violation (1258) and every ordered pair of two '
                     'different violations (99218); a case is one illegal call judged for info/xerbla position and name, bytewise no-side-effect on everything reachable from the arguments, heap balance; '
@@ -619,14 +619,14 @@ SPECS = {
             'deadline': {'quick': 300, 'thorough': 1800}},
     'C08': {'jobs': lambda t: jobs_hist('C08', t), 'level': 'exploration', 'rule': RULE_H + '; after every F/R: wellformed(), LU residual and multiplier bound for the CURRENT values, pivot policy incl. reuse of the previous row order; after every S: solve residual, factors/permutations/A bitwise unchanged; every history is replayed twice and must give identical bits',
             'assumptions': ['threads run inline in this engine (thread counts vary between calls, schedules are Engine S business)', 'complex trans=CONJ solves are not judged here (known finding of C07)'],
-            'deadline': {'quick': 600, 'thorough': 3 * 3600}},
+            'deadline': {'quick': 600, 'thorough': 3600}},
     'C17': {'jobs': lambda t: jobs_hist('C17', t), 'level': 'exploration', 'rule': RULE_H + '; allocator model (every malloc/calloc/free of the library is renamed at compile time): the set of live blocks after R and S equals that after the first F, and after the documented clean-up equals the pre-history set; plus every driver call of the C01/C06 enumeration (n<=3: success, singular, workspace query) judged for blocks left after destroying what was returned',
             'assumptions': ['documented clean-up: Destroy_SuperNode_SCP/Destroy_CompCol_NCP (system memory) or Destroy_SuperMatrix_Store + free(work) (user workspace), SUPERLU_FREE of the three ordering arrays, StatFree, Destroy_CompCol_Permuted',
                             'leaks on illegal-argument returns are judged in C15 (oracle leak); leaks on allocation-failure returns in C14', 'thread and file handles: every created thread is joined (C04 monitors); the library opens no files'],
-            'deadline': {'quick': 600, 'thorough': 3 * 3600}},
+            'deadline': {'quick': 600, 'thorough': 3600}},
     'C18': {'jobs': lambda t: jobs_hist('C18', t) + jobs_lacon(t), 'level': 'exploration', 'rule': RULE_H + '; after every history (and after 1-2 repetitions of 4 extra events: singular call, failed allocation, expert-driver call with other options, another matrix size) a fixed probe (first factorization + 2 solves, 1 thread) is run and its complete output bits are compared with the same probe executed in a freshly forked process; the reverse-communication norm estimator ?lacon_ (function-static loop state, used by every expert-driver call): every 2x2 matrix with entries in -2..2 and every 3x3 matrix with entries in -1..1 (complex: {0,1,-1,i} / {0,1,i}) estimated after representatives of every iteration class and in reverse catalogue order, bit-compared with the estimate made as the only one of a fresh process',
             'assumptions': ['one precision per process: carry-over between the s/d/c/z copies of the static state is not exercised (separate translation units with separate statics)'],
-            'deadline': {'quick': 600, 'thorough': 3 * 3600}},
+            'deadline': {'quick': 600, 'thorough': 3600}},
     'C19': {'jobs': jobs_C19, 'level': 'exploration',
             'rule': 'all 0/1 patterns m,n<=3 (products, norms, conversions) / all structurally nonsingular patterns n<=4 x factor options (triangular solves with the real supernodal L and U) x the full argument grid of each routine (op N/T/C, alpha/beta incl. 0 and 1, increments +-1 +-2, leading dimensions); dense long-double reference with componentwise rounding bounds; padding bytes checked; fork isolation per call',
             'assumptions': ['values: one generic and one small-integer table', 'quick tier: an input class in which the library has killed the process 3 times per job is not executed further (counted); the thorough tier executes every case',
@@ -652,10 +652,10 @@ SPECS = {
                     'each case in its own forked child with stderr captured; outcome classes: returned(info) / abort path with diagnostic / sanitizer report / fault / hang; distinct_nontrivial counts distinct (case, outcome) pairs',
             'assumptions': ['allocation failure is injected at the renamed malloc/calloc level of the library (every request of the library is visible)', 'threads run inline; the user-workspace modes under real interleavings are jobs K12 of Engine S',
                             'a success (info=0) after a failed request that the call really issued is counted as a violation; the abort path must print a diagnostic'],
-            'deadline': {'quick': 600, 'thorough': 3 * 3600}},
+            'deadline': {'quick': 600, 'thorough': 3600}},
     'C09': {'jobs': jobs_C09, 'level': 'exploration', 'rule': RULE_SEQ,
             'assumptions': ['checker wellformed() implements the statement literally; n <= 12'],
-            'deadline': {'quick': 600, 'thorough': 3 * 3600}},
+            'deadline': {'quick': 600, 'thorough': 3600}},
 }
 
 
